@@ -1454,7 +1454,10 @@ func (ctx *RenderContext) getAttribute(obj interface{}, attr string) (interface{
 		}
 
 		if method.IsValid() {
-			results := method.Call(nil)
+			results, err := callMethod(method)
+			if err != nil {
+				return nil, fmt.Errorf("attribute '%s': %w", attr, err)
+			}
 			if len(results) > 0 {
 				return results[0].Interface(), nil
 			}
@@ -1464,6 +1467,29 @@ func (ctx *RenderContext) getAttribute(obj interface{}, attr string) (interface{
 
 	// Instead of returning an error for attributes not found, just return nil
 	return nil, nil
+}
+
+// callMethod calls a method of a context value that takes no arguments. A panic in the method,
+// or in the wrapper Go generates for a method promoted through a nil embedded pointer or
+// interface, is an error of the render, not the end of the process.
+func callMethod(method reflect.Value) (results []reflect.Value, err error) {
+	defer func() {
+		if r := recover(); r != nil {
+			results, err = nil, fmt.Errorf("method call panicked: %v", r)
+		}
+	}()
+	return method.Call(nil), nil
+}
+
+// stringerText is what a value says about itself. A String method that panics (a struct that
+// embeds a nil Stringer) yields the description fmt gives such a value, not a panic.
+func stringerText(s fmt.Stringer) (text string) {
+	defer func() {
+		if r := recover(); r != nil {
+			text = fmt.Sprintf("%%!v(PANIC=String method: %v)", r)
+		}
+	}()
+	return s.String()
 }
 
 // evaluateBinaryOp evaluates a binary operation
@@ -1944,7 +1970,7 @@ func (ctx *RenderContext) ToString(val interface{}) string {
 		if rv := reflect.ValueOf(v); rv.Kind() == reflect.Ptr && rv.IsNil() {
 			return ""
 		}
-		return v.String()
+		return stringerText(v)
 	}
 
 	return fmt.Sprintf("%v", val)
